@@ -86,6 +86,87 @@ theorem tightening_sound {that other t : Cons} (h : tightening that (some other)
         intro xs hxs; exact tightenLen_sound hl id xs.length (ho xs hxs) (ht xs hxs)
       | other => trivial
 
+theorem tightenLen_cases {that other : Cons} {l : Option LenC} (h : tightenLen that other = .ok l) :
+    l = none ∨ l = that.len := by
+  unfold tightenLen at h
+  cases hol : other.len with
+  | none => simp only [hol, Except.ok.injEq] at h; exact Or.inr h.symm
+  | some ol =>
+    simp only [hol] at h
+    cases htl : that.len with
+    | none => simp [htl] at h
+    | some tl =>
+      simp only [htl, Except.ok.injEq] at h
+      by_cases heq : tl = ol
+      · rw [if_pos heq] at h; exact Or.inl h.symm
+      · rw [if_neg heq] at h; exact Or.inr h.symm
+
+theorem tightenPats_subset {that other : Cons} {ps : List Text} (h : tightenPats that other = .ok (some ps)) :
+    ∃ tps, that.pats = some tps ∧ ∀ p ∈ ps, p ∈ tps := by
+  unfold tightenPats at h
+  cases hop : other.pats with
+  | none => simp only [hop, Except.ok.injEq] at h; exact ⟨ps, h, fun p hp => hp⟩
+  | some ops =>
+    simp only [hop] at h
+    cases htp : that.pats with
+    | none => simp [htp] at h
+    | some tps =>
+      simp only [htp] at h
+      by_cases hall : (ops.all (tps.contains ·)) = true
+      · rw [if_pos hall] at h
+        simp only [Except.ok.injEq] at h
+        refine ⟨tps, rfl, ?_⟩
+        split at h
+        · cases h
+        · simp only [Option.some.injEq] at h
+          intro p hp
+          rw [← h] at hp
+          exact (List.mem_filter.mp hp).1
+      · rw [if_neg hall] at h; cases h
+
+/-- the steps from a single parent survive `_common_tightening_steps` with the complete constraints -/
+theorem commonSteps_single {full other t : Cons} (h : tightening full (some other) = .ok t)
+    (sh : Shape) (j : Json) (hc : TransSpec sh (commonSteps full t) j) : TransSpec sh t j := by
+  simp only [tightening] at h
+  cases hl : tightenLen full other with
+  | error e => simp [hl] at h
+  | ok l =>
+    simp only [hl] at h
+    cases hp : tightenPats full other with
+    | error e => simp [hp] at h
+    | ok ps =>
+      simp only [hp, Except.ok.injEq] at h
+      subst h
+      have hlen : (commonSteps full ⟨l, ps⟩).len = l := by
+        simp only [commonSteps]
+        rcases tightenLen_cases hl with rfl | rfl
+        · rfl
+        · cases full.len <;> rfl
+      have hpats : ∀ s, PatsOK (commonSteps full ⟨l, ps⟩).pats s → PatsOK ps s := by
+        intro s hok
+        cases ps with
+        | none => intro qs hqs; cases hqs
+        | some op =>
+          obtain ⟨tps, htps, hsub⟩ := tightenPats_subset hp
+          intro qs hqs p hpm
+          cases hqs
+          simp only [commonSteps, htps] at hok
+          have hin : p ∈ tps.filter (op.contains ·) :=
+            List.mem_filter.mpr ⟨hsub p hpm, by simpa using hpm⟩
+          have hne : (tps.filter (op.contains ·)).isEmpty = false := by
+            cases hf : tps.filter (op.contains ·) with
+            | nil => rw [hf] at hin; cases hin
+            | cons a as => rfl
+          simp only [hne, Bool.false_eq_true, if_false] at hok
+          exact hok _ rfl p hin
+      cases sh with
+      | prim q =>
+        cases q <;> simp only [TransSpec] at * <;> try trivial
+        · intro s hs; exact ⟨hlen ▸ (hc s hs).1, hpats s (hc s hs).2⟩
+        · intro s hs; exact hlen ▸ hc s hs
+      | list => simp only [TransSpec] at *; intro xs hxs; exact hlen ▸ hc xs hxs
+      | other => trivial
+
 /-- the top node's part of `Sat` -/
 theorem sat_top (defs : Defs) (τ : TA) (v : Json) (h : Sat defs τ v) :
     ∀ cs, τ.cons = some cs → TransSpec τ.shape cs v := by
@@ -150,16 +231,16 @@ theorem inherited_constraint_enforced (defs : Defs) {c par : Cls} {k kp : Text} 
   rw [hparents] at ht
   cases hqc : q.ty.cons with
   | none =>
-    simp only [hqc, tightenAll, Except.ok.injEq] at ht
+    simp only [hqc, tightenAll, tightenLoop, Except.ok.injEq] at ht
     rw [ht]; exact hts
   | some qc =>
-    simp only [hqc, tightenAll] at ht
+    simp only [hqc, tightenAll, tightenLoop] at ht
     cases hti : tightening cs (some qc) with
     | error e => simp [hti] at ht
     | ok t' =>
       simp only [hti, Except.ok.injEq] at ht
       subst ht
       have hoth : TransSpec p.ty.shape qc v := hshape ▸ sat_top defs q.ty v hsat qc hqc
-      exact tightening_sound hti p.ty.shape v hoth hts
+      exact tightening_sound hti p.ty.shape v hoth (commonSteps_single hti p.ty.shape v hts)
 
 end AasVerif.JsonSchema
